@@ -19,6 +19,13 @@ import (
 	"time"
 )
 
+// PropExtra: functions outside the property's own cone of which only the named obligations
+// belong to this property (the rest is decided by the properties that own those functions)
+type PropExtra struct {
+	Functions []string `json:"functions"`
+	Only      string   `json:"only"`
+}
+
 type PropExclude struct {
 	Pattern string `json:"pattern"`
 	Reason  string `json:"reason"`
@@ -41,6 +48,7 @@ type PropSpec struct {
 	Computed    []string      `json:"computed_premises,omitempty"`
 	Scan        *scanOpts     `json:"scan_nondeterminism,omitempty"`
 	ScanAst     *astScanOpts  `json:"scan_ast_writes,omitempty"`
+	Extra       []PropExtra   `json:"extra_functions,omitempty"`
 	Ignore      []string      `json:"goals_of_other_properties,omitempty"` // regexps: goal obligations that belong to another property's check
 }
 
@@ -137,8 +145,41 @@ func runCheck(id, tier, repo, verif string, seed int, writeEv bool) int {
 	}
 	work := filepath.Join(verif, ".work", id)
 	o := &runOpts{repo: repo, work: work, timeout: timeout, seed: seed, cross: tier == "thorough", jobs: 16, scan: ps.Scan, astScan: ps.ScanAst}
+	var mainFuncs []*regexp.Regexp
 	for _, r := range ps.Functions {
-		o.funcs = append(o.funcs, regexp.MustCompile("^(?:"+r+")$"))
+		re := regexp.MustCompile("^(?:" + r + ")$")
+		o.funcs = append(o.funcs, re)
+		mainFuncs = append(mainFuncs, re)
+	}
+	type extraRe struct {
+		fn   []*regexp.Regexp
+		only *regexp.Regexp
+	}
+	var extras []extraRe
+	for _, e := range ps.Extra {
+		er := extraRe{only: regexp.MustCompile(e.Only)}
+		for _, r := range e.Functions {
+			re := regexp.MustCompile("^(?:" + r + ")$")
+			o.funcs = append(o.funcs, re)
+			er.fn = append(er.fn, re)
+		}
+		extras = append(extras, er)
+	}
+	// an obligation of an extra function counts only when it matches that entry's "only"
+	extraSkip := func(fn, name string) bool {
+		for _, m := range mainFuncs {
+			if m.MatchString(fn) {
+				return false
+			}
+		}
+		for _, e := range extras {
+			for _, re := range e.fn {
+				if re.MatchString(fn) {
+					return !e.only.MatchString(name)
+				}
+			}
+		}
+		return false
 	}
 	if len(ps.Kinds) > 0 {
 		o.kinds = map[string]bool{"cover": true}
@@ -210,6 +251,10 @@ func runCheck(id, tier, repo, verif string, seed int, writeEv bool) int {
 			continue
 		}
 		skip := false
+		if extraSkip(r.Func, r.Name) {
+			ignored++
+			continue
+		}
 		for _, ig := range ps.Ignore {
 			if regexp.MustCompile(ig).MatchString(r.Name) {
 				skip = true
